@@ -7,7 +7,7 @@ func init() {
 			Fields: []string{"ResourceInformers", "VaryingInformers"},
 			Calls:  []string{"getCachedObjects", "RangeValue", "Sort", "ByNamespaceAndName"}},
 		skelTarget{Name: "c02.HookController.UpdateSnapshots", File: "pkg/hook/controller/hook_controller.go", Recv: "HookController", Func: "UpdateSnapshots",
-			Fields: []string{"KubernetesController", "Snapshots", "Objects"},
+			Fields: []string{"KubernetesController", "Snapshots", "Objects", "IncludeSnapshots"},
 			Calls:  []string{"getIncludeSnapshotsFrom", "SnapshotsFor"}},
 		skelTarget{Name: "c02.monitor.CreateInformersForNamespace", File: "pkg/kube_events_manager/monitor.go", Recv: "monitor", Func: "CreateInformersForNamespace",
 			Fields: []string{"Config"},
